@@ -259,6 +259,40 @@ def emit_table(v, conf, enabled):
     o.append("end Xc.Gen\n")
     return "\n".join(o)
 
+def parse_perms(repo):
+    """Output-encoding schedules of the md5/sha256/sha512/sunmd5 front-ends, read from the
+    b64_from_24bit (..) / write_itoa64_N (..) statement sequences.  Entry = (hi, mid, lo, nchars);
+    255 stands for the literal 0."""
+    out = {}
+    def idx(tok):
+        tok = tok.strip()
+        if tok == "0": return 255
+        m = re.fullmatch(r"(?:result|s->dg)\[\s*(\d+)\s*\]", tok)
+        if not m: raise RuntimeError("unrecognised encoder operand: %r" % tok)
+        return int(m.group(1))
+    for name, fn in [("md5crypt", "crypt-md5.c"), ("sha256crypt", "crypt-sha256.c"), ("sha512crypt", "crypt-sha512.c")]:
+        src = open(os.path.join(repo, "lib", fn)).read()
+        rows = re.findall(r"^\s*b64_from_24bit \(([^,]+),([^,]+),([^,]+),\s*(\d+)\);", src, re.M)
+        if not rows: raise RuntimeError("no b64_from_24bit schedule found in " + fn)
+        out[name] = [(idx(a), idx(b), idx(c), int(n)) for a, b, c, n in rows]
+    src = open(os.path.join(repo, "lib", "crypt-sunmd5.c")).read()
+    rows = re.findall(r"^\s*write_itoa64_(\d) \(output \+ saltlen \+\s*(\d+),([^,]+),([^,]+),([^,)]+)\);", src, re.M)
+    if not rows: raise RuntimeError("no write_itoa64 schedule found in crypt-sunmd5.c")
+    off = 1; sched = []
+    for n, o, b0, b1, b2 in rows:
+        if int(o) != off: raise RuntimeError("sunmd5 output offsets are not contiguous")
+        sched.append((idx(b2), idx(b1), idx(b0), int(n))); off += int(n)
+    out["sunmd5"] = sched
+    return out
+
+def emit_perms(perms):
+    o = [HDR, "namespace Xc.Gen\n"]
+    for k in sorted(perms):
+        o.append("/-- output schedule of %s: (hi, mid, lo, nchars), 255 = literal 0 -/" % k)
+        o.append("def perm_%s : List (Nat × Nat × Nat × Nat) := [" % k + ", ".join("(%d, %d, %d, %d)" % r for r in perms[k]) + "]\n")
+    o.append("end Xc.Gen\n")
+    return "\n".join(o)
+
 def generate(outdir, repo=cbuild.REPO, scratch=None, objs=None):
     own = scratch is None
     d = scratch or cbuild.mk_scratch("gen")
@@ -280,6 +314,7 @@ def generate(outdir, repo=cbuild.REPO, scratch=None, objs=None):
             "Consts.lean": emit_consts(v),
             "Alphabets.lean": emit_alphabets(v),
             "Table.lean": emit_table(v, conf, enabled),
+            "Perms.lean": emit_perms(parse_perms(repo)),
         }
         import gen_tables
         files.update(gen_tables.generate(d, repo, v))
